@@ -302,7 +302,13 @@ class Engine:
                 if cond is not None:
                     self.oblige('raises', f'{exc}.only_if', z3.Not(zbool(self.spec(cond, use_old=True, params_only=True))))
             for label, p in c.ens():
-                goal = zbool(self.spec(p, {'result': value}, params_only=True))
+                try:
+                    goal = zbool(self.spec(p, {'result': value}, params_only=True))
+                except (Unsupported, PyRaise) as err:
+                    # the clause cannot even be evaluated on this path's result (e.g. it reads a field of None):
+                    # the result does not have the shape the postcondition describes - a failed obligation
+                    self.oblige('post', label, z3.BoolVal(False), {'not_evaluable': str(err)[:200]})
+                    continue
                 if label in c.regions:
                     goal = z3.Implies(zbool(self.spec(c.regions[label], {'result': value}, use_old=True, params_only=True)), goal)
                 self.oblige('post', label, goal)
